@@ -64,6 +64,10 @@ CLAIMED = {
             "function; the continuous symmetric augmentation and every evaluation class (greedy, augmentation, sampling, multistart, "
             "multistart+augment over a data loader with partial batches) are run with a coordinate-sensitive table policy and each reported "
             "(actions, reward) is validated by TLC: objective on the ORIGINAL instance, maximum over the candidates, never worse than greedy."),
+    "C14": ("exploration", "6", "InferTrace.tla (per-row refinement of batched greedy decoding w.r.t. solo decoding, tie rule) validated by TLC on recorded decodes of bundled policies",
+            "The network is an uninterpreted function, so no model-level exhaustiveness is claimed: bundled constructive policies (random weights, "
+            "eval mode) are decoded solo and at every position of batches of copies / unrelated instances / several sizes; TLC validates each "
+            "record against InferTrace.tla (same greedy actions until a top-2 tie, padding afterwards, same reward and log-likelihood)."),
 }
 PROTO_NOTE = ("Trusted base: TLC 1.8.0; the TLA+ protocol specifications under spec/decode, spec/train; float tolerances stated in the "
               "trace specifications; small-scope hypothesis.")
